@@ -94,6 +94,15 @@ fn conditions(db: &Db, l: &MSelect, r: &MSelect) -> Vec<MExpr> {
         MExpr::Or(Box::new(bin(Bin::Eq, col(&last_r), lit(2))), Box::new(bin(Bin::Gt, col(&first_l), lit(1)))),
         bin(Bin::Eq, col("NoSuch.Column"), col(&first_r)),
         bin(Bin::Eq, col(&first_l), col("K_unknown")),
+        // conditions that are not comparisons: any non-zero, non-empty value counts as true
+        bin(Bin::BitAnd, col(&last_l), col(&last_r)),
+        bin(Bin::Add, col(&first_l), col(&last_r)),
+        col(&last_r),
+        MExpr::Un(crate::exprmodel::Un::Neg, Box::new(col(&first_l))),
+        // an unknown name below a unary operator
+        MExpr::Un(crate::exprmodel::Un::Not, Box::new(bin(Bin::Eq, col("NoSuch.Column"), col(&first_r)))),
+        bin(Bin::Eq, MExpr::Un(crate::exprmodel::Un::Neg, Box::new(col("K_unknown"))), col(&first_l)),
+        MExpr::Un(crate::exprmodel::Un::BitNot, Box::new(col("Nope"))),
         // names are case-sensitive: a spelling that differs only in letter case names no column
         bin(Bin::Eq, col(&swapcase(&first_l)), col(&first_r)),
         bin(Bin::Eq, col(&first_l), col(&swapcase(&last_r))),
@@ -123,6 +132,8 @@ fn with_tops(db: &Db, j: MSelect, out: &mut Vec<MSelect>) {
         out.push(j.clone().with(bin(Bin::Eq, col(&c0), lit(1))));
         out.push(j.clone().columns(&[c0.as_str()]));
     }
+    out.push(j.clone().with(MExpr::Un(crate::exprmodel::Un::Not, Box::new(col("Unknown.Col")))));
+    out.push(j.clone().with(MExpr::Un(crate::exprmodel::Un::Neg, Box::new(bin(Bin::Add, col("Unknown.Col"), lit(1))))));
     out.push(j.clone().columns(&["Unknown.Col"]));
     out.push(j.with(bin(Bin::Eq, col("Unknown.Col"), lit(1))));
 }
@@ -228,7 +239,7 @@ fn run_random(rep: &mut Report, seed: u64, case: u64) {
         let other = rng.pick(&lv).clone();
         let (l, r) = if rng.chance(1, 2) { (cur.clone(), other) } else { (other, cur.clone()) };
         let conds = conditions(&db, &l, &r);
-        let c = conds[rng.usize(conds.len().saturating_sub(4).max(1))].clone();
+        let c = conds[rng.usize(conds.len().saturating_sub(7).max(1))].clone();
         cur = MSelect::join(if rng.chance(1, 2) { JoinKind::Inner } else { JoinKind::Left }, l, r, c);
     }
     rep.case(Some(fnv(format!("rnd:{}:{}:{}", cur.show(), ca, cb).as_bytes())));
